@@ -25,7 +25,7 @@ LEVEL_TEXT = ('The input space named by the property (pairs on n<=3 in every rep
               'deterministic walk over every overlap weight, which covers each wrap boundary with certainty.')
 LEVEL_NOTE = ('Trusted: mc/gf2.py. Representations enumerated: list, ndarray of 7 integer dtypes (1-D and 1x2n), csr '
               'row; bool/float arrays are not accepted representations in the statement.')
-RULE = ('pairs: every (a, b) in P_n x P_n for n in 1..3 for every ordered pair of 17 representations; stacks: all '
+RULE = ('pairs: every (a, b) in P_n x P_n for n in 1..3 for every ordered pair of 19 representations; stacks: all '
         '16^2 x 16^2 two-row stacks on n=2 (dense, sparse); overlap: every w in 0..N for N in the boundary list, 5 '
         'patterns x 4 representation mixes; syndrome: all 4^n errors for library codes with n<=8; converters: all '
         '4^n strings n<=4. non-trivial = distinct (input, representation) tuples with a non-identity operand')
@@ -37,7 +37,8 @@ BOUNDS = {'quick': {'n_pairs': 3, 'overlap_N': [255, 256, 257, 511, 512, 513, 60
                        'syndrome_max_n': 8, 'conv_n': 5}}
 
 DTYPES = ['uint8', 'int8', 'uint16', 'int16', 'int32', 'int64', 'uint64']
-REPS = ['list'] + ['%s/1d' % d for d in DTYPES] + ['%s/2d' % d for d in DTYPES] + ['list/2d', 'csr']
+REPS = ['list'] + ['%s/1d' % d for d in DTYPES] + ['%s/2d' % d for d in DTYPES] + ['list/2d', 'csr',
+                                                                                 'csr/explicit-zeros', 'csr/unsorted']
 
 
 def rep(v, n, kind):
@@ -48,6 +49,14 @@ def rep(v, n, kind):
         return [list(bits)]
     if kind == 'csr':
         return csr_matrix(np.array([bits], dtype='uint8'))
+    if kind == 'csr/explicit-zeros':
+        # as left behind by sparse arithmetic (e.g. s = a + b; s.data %= 2): zeros stored explicitly
+        cols = list(range(2 * n))
+        return csr_matrix((np.array(bits, dtype='uint8'), np.array(cols), np.array([0, 2 * n])), shape=(1, 2 * n))
+    if kind == 'csr/unsorted':
+        cols = [i for i in range(2 * n) if bits[i]][::-1]
+        return csr_matrix((np.ones(len(cols), dtype='uint8'), np.array(cols, dtype=int), np.array([0, len(cols)])),
+                          shape=(1, 2 * n))
     dt, shape = kind.split('/')
     a = np.array(bits, dtype=dt)
     return a if shape == '1d' else a.reshape(1, -1)
@@ -253,6 +262,27 @@ def eval_syndrome(cfg):
                             'size': cfg['size'], 'deformation': cfg['deformation'][0] if cfg['deformation'] else None},
                     'detail': {'error': gf2.int_to_pauli_string(e, n), 'expected': gf2.int_to_vec(want, m),
                                'got': np.asarray(s).tolist()}})
+    # sparse error rows as sparse arithmetic leaves them (explicit zeros): sums of two basis errors, mod 2
+    for i in range(2 * n):
+        for j in range(i, 2 * n):
+            a = csr_matrix(np.array([gf2.int_to_vec(1 << i, 2 * n)], dtype='uint8'))
+            b = csr_matrix(np.array([gf2.int_to_vec((1 << i) | (1 << j), 2 * n)], dtype='uint8'))
+            e = a + b
+            e.data %= 2
+            want = gf2.syndrome(H, (1 << j) if j != i else 0, n)
+            res['evals'] += 1
+            try:
+                from panqec.bpauli import bs_prod
+                s = np.asarray(bs_prod(code.stabilizer_matrix, e)).ravel()
+                ok = gf2.vec_to_int(s % 2) == want and len(s) == m
+            except Exception as exc:
+                ok = False
+            if not ok:
+                nbad += 1
+                if len(res['violations']) < 4:
+                    res['violations'].append({
+                        'key': {'part': 'syndrome', 'kind': 'syndrome-of-sparse-sum-not-linear', 'cls': cfg['cls'],
+                                'size': cfg['size']}, 'detail': {'bits': [i, j]}})
     # other dtypes / list / int64 on the basis
     for i in range(2 * n):
         e = 1 << i
